@@ -2503,10 +2503,15 @@ class RedunBackendDb(RedunBackend):
         for pair in call_task_pairs:
             call_node2task_hashes[pair.call_hash].add(pair.task_hash)
 
+        # Every recorded CallNode lists at least its own task. A CallNode without any subtree
+        # tasks (e.g. one imported from another repository, since record transfer does not
+        # carry them) gives no evidence that the code beneath it is unchanged, so it cannot be
+        # used for ultimate reduction.
         current_call_nodes = [
             call_node
             for call_node in call_nodes
-            if call_node2task_hashes[call_node.call_hash] <= scheduler_task_hashes
+            if call_node2task_hashes[call_node.call_hash]
+            and call_node2task_hashes[call_node.call_hash] <= scheduler_task_hashes
         ]
 
         if current_call_nodes:
